@@ -432,11 +432,14 @@ class KademliaProtocol(DatagramProtocol):
         self.received_request_metric.labels(method=request_datagram.method).inc()
         self.peer_manager.report_last_requested(address[0], address[1])
         peer = self.routing_table.get_peer(request_datagram.node_id)
+        if peer and (peer.address, peer.udp_port) != (address[0], address[1]):
+            peer = None  # same node id from another endpoint: answer and rate the actual sender
         if not peer:
             try:
                 peer = make_kademlia_peer(request_datagram.node_id, address[0], address[1])
             except ValueError as err:
                 log.warning("error replying to %s: %s", address[0], str(err))
+                self.peer_manager.report_failure(address[0], address[1])
                 return
         try:
             self._handle_rpc(peer, request_datagram)
